@@ -212,7 +212,7 @@ impl Prop for C15 {
         for l in ["greville", "natural(2,2)", "clamped(1,1)", "mixed-end-derivatives", "least-squares", "perturbed-greville"] {
             v.push(format!("layout:{}", l));
         }
-        for d in ["random", "polynomial", "dual-data", "dual2-data", "dual-abscissa", "dual2-abscissa", "mismatched-counts-rejected", "evaluate-before-solve-rejected"] {
+        for d in ["random", "polynomial", "dual-data", "dual2-data", "dual-abscissa", "dual2-abscissa", "basis-dual-abscissa", "basis-dual2-abscissa", "mismatched-counts-rejected", "evaluate-before-solve-rejected"] {
             v.push(format!("check:{}", d));
         }
         for c in ["f64xF64", "f64xDual", "f64xDual2", "DualxF64", "DualxDual", "DualxDual2(refused)", "Dual2xF64", "Dual2xDual(refused)", "Dual2xDual2"] {
@@ -620,6 +620,42 @@ impl Prop for C15 {
                     ctx.violation(&format!("C15|dual-abscissa|m={}", mm), case(json!({"x": x, "m": mm, "abscissa_dual": [a, b], "observed_real": got.real(), "observed_grad": g.to_vec(), "spline_value": s0, "spline_first_derivative": s1})));
                     return;
                 }
+                // the per-basis-function evaluators at a dual abscissa (public API): each carries the basis
+                // function's own derivative, and the coefficient-weighted sum is the spline evaluated above
+                if mm == 0 {
+                    if let Some(c) = sp.c().as_ref() {
+                        let (kk, tt) = (*sp.k(), sp.t().clone());
+                        let mut acc = (0.0f64, 0.0f64, 0.0f64);
+                        let mut bad = None;
+                        for i in 0..*sp.n() {
+                            let bd = match guarded(|| rateslib::splines::bsplev_single_dual(&xd, i, &kk, &tt, None)) {
+                                Caught::Ok(v) => v,
+                                Caught::Panic { loc, msg } => {
+                                    on_panic(ctx, "bsplev_single_dual", &loc, &msg, case(json!({"x": x, "i": i})));
+                                    return;
+                                }
+                            };
+                            let b0 = rateslib::splines::bsplev_single_f64(x, i, &kk, &tt, None);
+                            let b1 = rateslib::splines::bspldnev_single_f64(x, i, &kk, &tt, 1, None);
+                            let gb = bd.gradient1(vec!["p".into(), "q".into()]);
+                            if !(bd.real() == b0 && (gb[0] - b1 * a).abs() <= 1e-12 * (b1 * a).abs().max(1e-300) && (gb[1] - b1 * b).abs() <= 1e-12 * (b1 * b).abs().max(1e-300)) {
+                                bad = Some(json!({"i": i, "observed_real": bd.real(), "observed_grad": gb.to_vec(), "basis_value": b0, "basis_first_derivative": b1}));
+                                break;
+                            }
+                            acc = (acc.0 + c[i] * bd.real(), acc.1 + c[i] * gb[0], acc.2 + c[i] * gb[1]);
+                        }
+                        ctx.eval(*sp.n() as u64);
+                        ctx.asserted(*sp.n() as u64 + 1);
+                        ctx.class("check:basis-dual-abscissa");
+                        if bad.is_none() && !((acc.0 - got.real()).abs() <= TOL * scale && (acc.1 - g[0]).abs() <= 1e-8 * scale * a.abs().max(1.0) && (acc.2 - g[1]).abs() <= 1e-8 * scale * b.abs().max(1.0)) {
+                            bad = Some(json!({"sum_of_c_times_basis": [acc.0, acc.1, acc.2], "spline_at_dual_abscissa": [got.real(), g[0], g[1]]}));
+                        }
+                        if let Some(w) = bad {
+                            ctx.violation("C15|basis-dual-abscissa", case(json!({"x": x, "abscissa_dual": [a, b], "what": w})));
+                            return;
+                        }
+                    }
+                }
                 let hxx = [rng.real() * 0.5, rng.real() * 0.5, rng.real() * 0.5]; // d2X/dp2, d2X/dpdq, d2X/dq2
                 let x2 = Dual2::try_new(*x, vec!["p".into(), "q".into()], vec![a, b], vec![0.5 * hxx[0], 0.5 * hxx[1], 0.5 * hxx[1], 0.5 * hxx[2]]).unwrap();
                 let got2 = match guarded(|| sp.ppdnev_single_dual2(&x2, mm)) {
@@ -636,6 +672,41 @@ impl Prop for C15 {
                 ctx.eval(1);
                 ctx.asserted(1);
                 ctx.class("check:dual2-abscissa");
+                if mm == 0 && sp.c().is_some() {
+                    // per-basis evaluator at a second-order abscissa: chain rule with the basis function's own derivatives
+                    let (kk, tt) = (*sp.k(), sp.t().clone());
+                    for i in 0..*sp.n() {
+                        let bd = match guarded(|| rateslib::splines::bsplev_single_dual2(&x2, i, &kk, &tt, None)) {
+                            Caught::Ok(v) => v,
+                            Caught::Panic { loc, msg } => {
+                                on_panic(ctx, "bsplev_single_dual2", &loc, &msg, case(json!({"x": x, "i": i})));
+                                return;
+                            }
+                        };
+                        let b0 = rateslib::splines::bsplev_single_f64(x, i, &kk, &tt, None);
+                        let b1 = rateslib::splines::bspldnev_single_f64(x, i, &kk, &tt, 1, None);
+                        let b2 = rateslib::splines::bspldnev_single_f64(x, i, &kk, &tt, 2, None);
+                        let gb = bd.gradient1(vec!["p".into(), "q".into()]);
+                        let hb = bd.gradient2(vec!["p".into(), "q".into()]);
+                        let wh = [b2 * a * a + b1 * hxx[0], b2 * a * b + b1 * hxx[1], b2 * b * b + b1 * hxx[2]];
+                        let sc = [b0, b1, b2].iter().fold(1e-300f64, |m, v| m.max(v.abs())) * (a.abs().max(b.abs()).max(1.0)).powi(2);
+                        ctx.eval(1);
+                        ctx.asserted(1);
+                        let okb = bd.real() == b0
+                            && (gb[0] - b1 * a).abs() <= 1e-10 * sc
+                            && (gb[1] - b1 * b).abs() <= 1e-10 * sc
+                            && (hb[[0, 0]] - wh[0]).abs() <= 1e-10 * sc
+                            && (hb[[0, 1]] - wh[1]).abs() <= 1e-10 * sc
+                            && (hb[[1, 0]] - wh[1]).abs() <= 1e-10 * sc
+                            && (hb[[1, 1]] - wh[2]).abs() <= 1e-10 * sc;
+                        if !okb {
+                            ctx.violation("C15|basis-dual2-abscissa", case(json!({"x": x, "i": i, "abscissa_dual": [a, b], "abscissa_second_partials": hxx, "observed_real": bd.real(), "observed_grad": gb.to_vec(),
+                                "observed_hess": hb.iter().cloned().collect::<Vec<_>>(), "expected_hess": wh, "basis_derivatives": [b0, b1, b2]})));
+                            return;
+                        }
+                    }
+                    ctx.class("check:basis-dual2-abscissa");
+                }
                 let g2 = got2.gradient1(vec!["p".into(), "q".into()]);
                 let h2 = got2.gradient2(vec!["p".into(), "q".into()]);
                 // chain rule: d2 f(X)/dpdq = f''(X) X_p X_q + f'(X) X_pq
